@@ -525,6 +525,56 @@ fn judge_one(host: &Host, text: &str, cfg: &Cfg, generated: &str, tagc: &str) ->
     }
 }
 
+/// modules with definitive identifiers in their headers and IMPORTS clauses that name the
+/// exporting module with the same identifier, with another spelling of it, or without one:
+/// the imports of a value, of its governing type, of both and of a type that uses them
+fn module_identifier_leg(ctx: &mut Ctx, host: &Host) {
+    let header_ids = ["", "{ iso(1) standard(0) 9999 }", "{ iso standard 9999 }"];
+    let clause_ids = ["", " { iso(1) standard(0) 9999 }", " { iso standard 9999 }", " { 1 0 9999 }"];
+    let symbol_sets = ["Foo, v", "v", "Foo", "v, Bar", "Bar, Foo, v", "v, Foo"];
+    let mut k = 0usize;
+    let mut reported = 0;
+    for h in header_ids {
+        for c in clause_ids {
+            for syms in symbol_sets {
+                let uses = format!(
+                    "S ::= SEQUENCE {{ {}{}{}z NULL }}",
+                    if syms.contains("Foo") { "a Foo OPTIONAL, " } else { "" },
+                    if syms.contains('v') { "b INTEGER DEFAULT v, " } else { "" },
+                    if syms.contains("Bar") { "c Bar OPTIONAL, " } else { "" }
+                );
+                let text = format!(
+                    "Oid-A {h} DEFINITIONS AUTOMATIC TAGS ::= BEGIN\nFoo ::= INTEGER (0..7)\nv Foo ::= 5\nBar ::= SEQUENCE {{ a Foo, e ENUMERATED {{ x, y }} }}\nEND\nOid-B DEFINITIONS AUTOMATIC TAGS ::= BEGIN\nIMPORTS {syms} FROM Oid-A{c};\n{uses}\nEND\n"
+                );
+                for bits in [0usize, 1] {
+                    k += 1;
+                    let cfg = Cfg::from_bits(bits);
+                    let Outcome::Ok(o) = comp::compile_rasn1(&text, &cfg) else {
+                        ctx.class("module-identifier:rejected");
+                        continue;
+                    };
+                    if !o.warnings.is_empty() {
+                        ctx.class("module-identifier:warnings");
+                        continue;
+                    }
+                    ctx.case(&format!("{text}{bits}"), true);
+                    ctx.class("leg:module-identifiers-in-header-and-imports");
+                    if let Some(f) = judge_one(host, &text, &cfg, &o.generated, &format!("mid{k}")) {
+                        let known = f.finding.map_or(false, |id| ctx.is_known(id));
+                        ctx.class("fails:module-identifier");
+                        if known || reported < 3 {
+                            if !known {
+                                reported += 1;
+                            }
+                            ctx.fail(f);
+                        }
+                    }
+                }
+            }
+        }
+    }
+}
+
 pub fn run(tier: Tier, seed: u64, replay: Option<String>) -> i32 {
     let mut ctx = Ctx::new("C01", tier, seed);
     ctx.rule = "module sets from the §3 grammar generator (proptest choice streams) x RasnConfig round-robin; \
@@ -680,6 +730,7 @@ pub fn run(tier: Tier, seed: u64, replay: Option<String>) -> i32 {
         }
         done += k;
     }
+    module_identifier_leg(&mut ctx, &host);
     ctx.extra.insert("premise_satisfied".into(), json!(premise));
     ctx.extra.insert("compile_outcomes".into(), json!(outcomes));
     ctx.extra.insert("generated_inputs".into(), json!(done));
